@@ -576,7 +576,12 @@ func (cfg *config) parseRole(
 		thisRole = &role{name: roleName, actionCmds: make(map[string]cmd)}
 	}
 
+	// Signal names are unique within a role; this includes the signals
+	// copied from the extended role (like for actions).
 	parserNames := make(map[string]struct{})
+	for _, n := range thisRole.sigNames {
+		parserNames[n] = struct{}{}
+	}
 	cfg.roles[roleName] = thisRole
 	cfg.roleNames = append(cfg.roleNames, roleName)
 
